@@ -95,6 +95,19 @@ Dec(n) == IF n < 0 THEN <<45>> \o DecStr(0 - n) ELSE DecStr(n)
 RECURSIVE EscDq(_)
 EscDq(s) == IF s = <<>> THEN <<>> ELSE (IF Head(s) = 34 THEN <<34, 34>> ELSE <<Head(s)>>) \o EscDq(Tail(s))
 BlockHeader(n) == <<35, 48 + Len(DecStr(n))>> \o DecStr(n)
+DecA(n) == Dec(n)
+(* C17: array elements are given as big-endian byte sequences (most significant byte first), whatever the host is *)
+RECURSIVE Reverse(_)
+Reverse(s) == IF s = <<>> THEN <<>> ELSE Reverse(Tail(s)) \o <<Head(s)>>
+RECURSIVE BeValue(_, _)
+BeValue(bs, acc) == IF bs = <<>> THEN acc ELSE BeValue(Tail(bs), acc * 256 + Head(bs))
+ElemValue(bs, signed) == LET u == BeValue(bs, 0) IN IF signed /\ bs[1] >= 128 THEN u - (IF Len(bs) = 1 THEN 256 ELSE 65536) ELSE u
+FmtAscii == 0  FmtNormal == 1  FmtSwapped == 2
+(* result items of one array result: one block for the binary formats, one decimal item per element for ASCII *)
+ArrayItems(kind, fmt, elems) ==
+  IF fmt = FmtAscii THEN [i \in 1..Len(elems) |-> DecA(ElemValue(elems[i], kind \in {"ai8", "ai16"}))]
+  ELSE LET data == Flatten([i \in 1..Len(elems) |-> IF fmt = FmtNormal THEN elems[i] ELSE Reverse(elems[i])]) IN
+       <<BlockHeader(Len(data)) \o data>>
 ItemBytes(kind, v) ==
   IF kind = "i32" THEN Dec(v)
   ELSE IF kind = "bool" THEN (IF v = 0 THEN <<48>> ELSE <<49>>)
@@ -113,7 +126,8 @@ RECURSIVE RunOps(_, _, _, _, _, _)
 RunOps(ops, stopOnFail, msg, toks, choices, st) ==
   IF ops = <<>> \/ st.stop THEN st ELSE
   LET o == Head(ops) rest == Tail(ops) IN
-  IF o[1] = "r" THEN RunOps(rest, stopOnFail, msg, toks, choices, [st EXCEPT !.items = Append(@, ItemBytes(o[2], o[3]))])
+  IF o[1] = "r" /\ Len(o) = 5 THEN RunOps(rest, stopOnFail, msg, toks, choices, [st EXCEPT !.items = @ \o ArrayItems(o[2], o[3], o[5])])
+  ELSE IF o[1] = "r" THEN RunOps(rest, stopOnFail, msg, toks, choices, [st EXCEPT !.items = Append(@, ItemBytes(o[2], o[3]))])
   ELSE IF o[1] = "bh" THEN RunOps(rest, stopOnFail, msg, toks, choices, [st EXCEPT !.open = TRUE, !.obytes = BlockHeader(o[2]), !.arb = o[2]])
   ELSE IF o[1] = "bd" THEN
        (IF Len(o[2]) > st.arb
@@ -148,12 +162,13 @@ RunUnit(script, msg, toks, choices) ==
                ELSE IF st.errs = <<>> /\ st.cur <= Len(toks) THEN <<0 - 108>>                  \* parameters left unread
                ELSE st.errs
   IN [items |-> st.items, errs |-> errs2, params |-> st.params, alt |-> st.alt,
-      partial |-> st.open]      \* a block was announced and not completed: not a result item
+      partial |-> st.open,      \* a block was announced and not completed: not a result item
+      pbytes |-> st.obytes]
 
 -----------------------------------------------------------------------------
 (* One message: unit loop.  acc: log (handler invocations), units (item lists of responding units),  *)
 (* errs, weird (text that is not a well-formed unit was met: the rest is only constrained relationally) *)
-Acc0 == [log |-> <<>>, units |-> <<>>, errs |-> <<>>, weird |-> FALSE, weirdAt |-> 0, alt |-> FALSE, partial |-> FALSE]
+Acc0 == [log |-> <<>>, units |-> <<>>, errs |-> <<>>, weird |-> FALSE, weirdAt |-> 0, alt |-> FALSE, partial |-> FALSE, pbytes |-> <<>>]
 RECURSIVE RunUnits(_, _, _, _, _, _, _)
 RunUnits(table, scripts, choices, msg, pos, prev, acc) ==
   IF pos > Len(msg) \/ acc.weird THEN acc ELSE
@@ -171,6 +186,7 @@ RunUnits(table, scripts, choices, msg, pos, prev, acc) ==
        ELSE LET r == RunUnit(scripts[table[k].tag], msg, u.items, choices) IN
             RunUnits(table, scripts, choices, msg, u.next, eff,
                      [acc EXCEPT !.errs = @ \o r.errs, !.alt = @ \/ r.alt, !.partial = @ \/ r.partial,
+                                 !.pbytes = IF r.partial /\ ~acc.partial /\ acc.units = <<>> /\ r.items = <<>> THEN r.pbytes ELSE @,
                                  !.units = IF r.items = <<>> THEN @ ELSE Append(@, r.items),
                                  !.log = Append(@, [tag |-> table[k].tag, eff |-> eff, hdr |-> hdr, params |-> r.params,
                                                     nitems |-> Len(r.items), nerrs |-> Len(r.errs), pat |-> table[k].pat])])
@@ -182,7 +198,8 @@ RunMsg(table, scripts, choices, msg) ==
   LET a == RunUnits(PreTable(table), scripts, choices, msg, 1, <<>>, Acc0) IN
   [log |-> a.log, out |-> Framing(a.units), flush |-> IF a.units = <<>> THEN 0 ELSE 1,
    errs |-> a.errs, ret |-> a.errs = <<>>, weird |-> a.weird, weirdAt |-> a.weirdAt, alt |-> a.alt, partial |-> a.partial,
-   nresp |-> Len(a.units)]
+   nresp |-> Len(a.units),
+   pbytes |-> a.pbytes]        \* first thing written by the message, if that is an unfinished block: header and data so far
 
 -----------------------------------------------------------------------------
 (* C08: the input buffer.  FirstMsgEnd(b) = number of bytes of the first complete message in b, 0 if none *)
